@@ -371,6 +371,81 @@ func describeC15Big(a hx.Args) string {
 	return fmt.Sprintf("GOMAXPROCS=%d buckets=%d: ", a.Int(0), a.I64(1)/32) + describeC15At(a, 1)
 }
 
+// c15multi: ntab npool pool... nops (kind tab hash gen depth ply move value type)*
+// Any sub-sequence of the ops is well formed (an op on an empty slot does nothing, held results are
+// read at the next op that is not a held probe).
+func c15MultiSplit(a hx.Args, toks []string) (head []string, pool []string, ops [][]string, ok bool) {
+	if len(toks) < 3 {
+		return nil, nil, nil, false
+	}
+	np := a.Int(1)
+	if np < 0 || 2+np >= len(toks) {
+		return nil, nil, nil, false
+	}
+	nops := a.Int(2 + np)
+	base := 3 + np
+	if nops < 0 || base+9*nops != len(toks) {
+		return nil, nil, nil, false
+	}
+	for j := 0; j < nops; j++ {
+		ops = append(ops, toks[base+9*j:base+9*j+9])
+	}
+	return toks[:1], toks[2 : 2+np], ops, true
+}
+
+func shrinkC15Multi(in string) []string {
+	toks := hx.Toks(in)
+	a, err := hx.ParseArgs(in)
+	if err != nil {
+		return nil
+	}
+	head, pool, ops, ok := c15MultiSplit(a, toks)
+	if !ok {
+		return nil
+	}
+	var out []string
+	stored := map[string]bool{}
+	for _, o := range ops {
+		if o[0] == "0" {
+			stored[o[2]] = true
+		}
+	}
+	for _, c := range hx.Cuts(len(ops), 1) {
+		out = append(out, c15Join(head, pool, without(ops, c)))
+	}
+	for _, c := range hx.Cuts(len(pool), 0) {
+		used := false
+		for _, k := range pool[c.Lo:c.Hi] {
+			used = used || stored[k]
+		}
+		if !used {
+			out = append(out, c15Join(head, without(pool, c), ops))
+		}
+	}
+	return out
+}
+
+func describeC15Multi(a hx.Args) string {
+	np := a.Int(1)
+	if np < 0 || 2+np >= a.Len() {
+		return ""
+	}
+	pool := make([]uint64, np)
+	for i := range pool {
+		pool[i] = a.U64(2 + i)
+	}
+	nops := a.Int(2 + np)
+	base := 3 + np
+	var ops []c15mop
+	for j := 0; j < nops && base+9*j+8 < a.Len(); j++ {
+		o := base + 9*j
+		ops = append(ops, c15mop{a.Int(o + 1), c15op{kind: a.Int(o), hash: a.U64(o + 2), gen: a.I64(o + 3), d: a.I64(o + 4),
+			ply: a.I64(o + 5), m: a.I64(o + 6), v: a.I64(o + 7), typ: a.I64(o + 8)}})
+	}
+	_, desc := c15MultiEncode(a.Int(0), pool, ops)
+	return desc
+}
+
 // ---------------------------------------------------------------------------------------------
 // c10: board-in(root) ++ [j n m_1..m_n]
 
